@@ -141,6 +141,16 @@ CHECKS = {
         "outside": "schema loading on arbitrary SDL (no harness yet); polynomial running time on kilobyte documents; adversarial size-parametrised families",
         "assumptions": VALIDATE_ASSUME,
     },
+    "C11": {
+        "units": [{"pkg": "verifh/hval", "fn": "SchemaReadOnly", "cases": validate_cases, "panic_prop": "C11"}],
+        "covers": ["C11.validated-ok", "C11.validated-with-errors"],
+        "case_timeout": {"quick": 400, "thorough": 1200},
+        "level_text": "The property is reduced to a per-call safety property that the engine decides: after the schema is loaded it is frozen, and no feasible path of Validate (all rules) on the symbolic documents stores into a frozen object (schema definitions, relation maps, package-level state); every Store, map update, delete, in-place append and sort is checked against the frozen layer. From 'no shared writes' the absence of data races among goroutines that each own their document follows by the Go memory model - that step is an argument, not something the solver decides. A positive control (a deliberate write after freezing) is run at setup.",
+        "bounds": {"quick": "Validate with the full rule set on the 68 pieces of the C08 document shapes, schema frozen after loading",
+                   "thorough": "same with the heaviest fragment pieces"},
+        "outside": "goroutine interleavings and the race detector (not explored: replaced by the no-shared-write query plus the memory-model argument); VariableValues, ArgumentMap and FormatSchema (no harness yet); a store that writes back an identical value is reported by the engine but cannot be confirmed natively and makes the check undecided rather than a violation",
+        "assumptions": VALIDATE_ASSUME + ["natively the schema is dumped (ast.Dump of every type and directive, relation entries) before and after and compared"],
+    },
     "C03": {
         "units": [
             {"pkg": "verifh/hlex", "fn": "StepRef", "cases": lex_cases(5, 7), "panic_prop": "C03"},
